@@ -765,7 +765,11 @@ theorem C16_build_validates (e : Env) (a : BuildArgs) (u : Url) (henc : a.encode
         cases h : a.host with
         | nil => exact absurd h hhost
         | cons _ _ => rfl
-      simp [henc, hauth, hh, he] at hb
+      simp only [henc, Bool.false_eq_true, if_false] at hb
+      -- the scheme is lowered first (fix e21485a); a failure of that step is a failure of `build`
+      split at hb
+      · cases hb
+      · simp [hauth, hh, he] at hb
 
 /-! ### concrete checks -/
 
